@@ -162,6 +162,26 @@ def _apply_common(piece, blk):
         piece.insert_before(closer, '}', 'closure_spec')
         piece.counts['closure_spec'] -= 1
     for where, anchor, lines in blk.get('anchored', []):
+        if where in ('loop_spec', 'loop_top'):
+            # anchor = start of a loop header (`while let Ok(frame) =`, `for frame in`, `loop`): loop_spec lines go
+            # before the `{` of the loop body, loop_top lines right after it
+            hits, n = piece.find(anchor, unique=False, what=where)
+            if len(hits) != 1:
+                piece.counts['hint_skipped'] = piece.counts.get('hint_skipped', 0) + 1
+                continue
+            s_ = piece.src.s
+            k = hits[0] + n - 1 if s_[hits[0] + n - 1].text == '{' else hits[0] + n
+            depth = 0
+            while not (s_[k].text == '{' and depth == 0):
+                if s_[k].text in rtok.OPEN: depth += 1
+                elif s_[k].text in rtok.CLOSE: depth -= 1
+                k += 1
+            txt = '\n' + '\n'.join(lines) + '\n'
+            if where == 'loop_spec':
+                piece.insert_before(k, txt)
+            else:
+                piece.insert_after(k, txt)
+            continue
         if where.endswith('?'):
             where = where[:-1]
             hits, n = piece.find(anchor, unique=False, what=where)
@@ -414,7 +434,7 @@ def generate(repo, template_text, variables=None):
             elif d == 'closure_spec':
                 frm, to = rest.split('==>')
                 blk.setdefault('closure_specs', []).append((frm.strip(), to.strip()))
-            elif d in ('after', 'before', 'before_stmt', 'after?', 'before?', 'before_stmt?'):
+            elif d in ('after', 'before', 'before_stmt', 'after?', 'before?', 'before_stmt?', 'loop_spec', 'loop_top'):
                 lst = []
                 blk['anchored'].append((d, rest, lst))
                 section = lst
